@@ -7,6 +7,7 @@ use crate::gen::{self, Dec};
 use crate::model::eval::{self as me, compare_with};
 use crate::probe::{self, SetSpec};
 use crate::sval::{self, Image, SVal};
+use reval::expr::Index;
 use reval::prelude::*;
 use serde_json::json;
 use std::collections::BTreeMap;
@@ -197,6 +198,64 @@ pub(crate) fn random_case(bytes: &[u8]) -> SetCase {
     SetCase { spec: SetSpec { rules, fns: fns_all, symbols: standard_symbols(), suspend: 0 }, inputs }
 }
 
+/// Rulesets in which a field and a symbol share their name (and hold different collections), and a cacheable function
+/// is called with each of them, with paths into them and with literals; every rotation of the rule list.
+pub fn argument_spelling_cases() -> Vec<SetCase> {
+    let mut fns = BTreeMap::new();
+    fns.insert("fa".to_string(), me::FnSpec { cacheable: true, fail_on: vec![], fail_first: 0, uncacheable_after: 0 });
+    fns.insert("fd".to_string(), me::FnSpec { cacheable: true, fail_on: vec![], fail_first: 0, uncacheable_after: 0 });
+    let m = |a: i128, b: i128| crate::pool::map(&[("a", Value::Int(a)), ("b", Value::Vec(vec![Value::Int(b)]))]);
+    let mut symbols = BTreeMap::new();
+    symbols.insert("limits".to_string(), m(10, 11));
+    symbols.insert("list".to_string(), Value::Vec(vec![Value::Int(1), Value::Int(2)]));
+    symbols.insert("limits.b".to_string(), Value::Vec(vec![Value::Int(77)]));
+    symbols.insert("n".to_string(), Value::Int(5));
+    let input = crate::pool::map(&[
+        ("limits", m(99, 98)),
+        ("list", Value::Vec(vec![Value::Int(3)])),
+        ("limits.b", Value::Vec(vec![Value::Int(66)])),
+        ("n", Value::Int(6)),
+        ("id", Value::Int(1)),
+        ("o", crate::pool::map(&[("limits", m(55, 54)), ("0", Value::Vec(vec![Value::Int(8)]))])),
+        ("l", Value::Vec(vec![Value::Vec(vec![Value::Int(9)])])),
+    ]);
+    let idx = |e: Expr, k: &str| Expr::index(e, Index::Map(k.into()));
+    let args: Vec<(&str, Expr)> = vec![
+        ("field", Expr::reff("limits")),
+        ("symbol", Expr::symbol("limits")),
+        ("field-list", Expr::reff("list")),
+        ("symbol-list", Expr::symbol("list")),
+        ("field-path", idx(Expr::reff("limits"), "b")),
+        ("symbol-path", idx(Expr::symbol("limits"), "b")),
+        ("dotted-field", Expr::reff("limits.b")),
+        ("dotted-symbol", Expr::symbol("limits.b")),
+        ("nested-field", idx(Expr::reff("o"), "limits")),
+        ("text-key-0", idx(Expr::reff("o"), "0")),
+        ("position-0", Expr::index(Expr::reff("l"), Index::Vec(0))),
+        ("scalar-field", Expr::reff("n")),
+        ("scalar-symbol", Expr::symbol("n")),
+        ("literal", Expr::Map([("a".to_string(), Expr::value(10)), ("b".to_string(), Expr::Vec(vec![Expr::value(11)]))].into_iter().collect())),
+    ];
+    let mut rules: Vec<(String, Expr)> = vec![];
+    for f in ["fa", "fd"] {
+        for (n, a) in &args {
+            rules.push((format!("{f}-{n}"), Expr::func(f, a.clone())));
+        }
+        rules.push((format!("{f}-all"), Expr::Vec(args.iter().map(|(_, a)| Expr::func(f, a.clone())).collect())));
+        rules.push((format!("{f}-all-reversed"), Expr::Vec(args.iter().rev().map(|(_, a)| Expr::func(f, a.clone())).collect())));
+    }
+    (0..rules.len())
+        .map(|r| {
+            let mut rs = rules.clone();
+            rs.rotate_left(r);
+            if r % 3 == 2 {
+                rs.reverse();
+            }
+            SetCase { spec: SetSpec { rules: rs, fns: fns.clone(), symbols: symbols.clone(), suspend: 0 }, inputs: vec![input.clone(), input.clone()] }
+        })
+        .collect()
+}
+
 pub fn run(ctx: &Ctx) {
     ctx.set_rule(
         "Generated: (1) every ruleset of 0-4 rules drawn from 15 rule kinds (one succeeding, one calling cacheable and non-cacheable \
@@ -302,6 +361,24 @@ pub fn run(ctx: &Ctx) {
             check(&twins[i as usize])
         },
         |i| twins[i as usize].to_json(),
+        "setcase",
+    );
+
+    // (1a') one cacheable function asked about an input field, a symbol of the same name, paths into both and literals
+    // of the same values, in separate rules and inside one rule: every rule's outcome is what it is on its own
+    let spellings = argument_spelling_cases();
+    ctx.enumerate(
+        "one-function-many-argument-spellings",
+        spellings.len() as u64,
+        true,
+        |i, acc| {
+            acc.cell("argument-spellings", true);
+            if i == 0 {
+                acc.sample("argument-spellings", || spellings[0].render());
+            }
+            check(&spellings[i as usize])
+        },
+        |i| spellings[i as usize].to_json(),
         "setcase",
     );
 
